@@ -78,7 +78,7 @@ pub fn gen(tier: &str, seed: u64, emit: &mut dyn FnMut(String)) {
         emit(s);
     }
     // very long runs on one PID (counters that could overflow or saturate): 1100 unit starts each preceded by a counter gap;
-    // a counter gap followed by 66000 continuation packets without a unit start (thorough only: 25 MB)
+    // a counter gap followed by 66000 continuation packets without a unit start (one 25 MB case)
     {
         let start = cls.iter().position(|c| c.pusi && c.afc == 1 && c.ccrel == 0 && c.hdr_ok).unwrap();
         let cont = cls.iter().position(|c| !c.pusi && c.afc == 1 && c.ccrel == 0).unwrap();
@@ -86,7 +86,7 @@ pub fn gen(tier: &str, seed: u64, emit: &mut dyn FnMut(String)) {
         let mut s = String::from("PESF 0"); let mut last = None;
         for _ in 0..(if big { 1300 } else { 1100 }) { for k in [start, cont, gap, cont] { let (p, cc) = build(cls[k], last, &mut rng); last = Some(cc); s.push(' '); s.push_str(&hex(&p)); } }
         emit(s);
-        if big {
+        {
             let mut s = String::from("PESF 0"); let mut last = None;
             for k in [start, cont, gap] { let (p, cc) = build(cls[k], last, &mut rng); last = Some(cc); s.push(' '); s.push_str(&hex(&p)); }
             for _ in 0..66000 { let (p, cc) = build(cls[cont], last, &mut rng); last = Some(cc); s.push(' '); s.push_str(&hex(&p)); }
